@@ -300,7 +300,23 @@ func (r *Run) stateOnPath(ff *core.FnFacts, path []*ssa.BasicBlock, state ssa.Va
 		case core.MatchTerm("ApplyPatches(_, ?d, _)", t, core.Bind{}):
 			b := core.Bind{}
 			core.MatchTerm("ApplyPatches(_, ?d, _)", t, b)
-			if b["d"].Op == "new" {
+			d := b["d"]
+			// the document handed to ApplyPatches read back from the state under construction (`result.Doc`): it is
+			// what the path stored there before the call
+			if d.Op == "field" && d.Name == "Doc" && len(d.Args) == 1 && d.Args[0].String() == ff.TB.Of(state).String() {
+				for i, blk := range path {
+					for _, in := range blk.Instrs {
+						if c, ok := in.(*ssa.Call); ok && c.Common().Method != nil && c.Common().Method.Name() == "ApplyPatches" {
+							if pt, ok := r.effectiveFields(ff, state, path[:i+1])["Doc"]; ok {
+								d = pt
+							}
+						}
+					}
+				}
+			}
+			if d.String() == "$rm.Doc" {
+				row.Doc = "patched(prev)"
+			} else if d.Op == "new" {
 				row.Doc = "patched(fresh)"
 			} else {
 				row.Doc = "patched(" + b["d"].String() + ")"
